@@ -34,15 +34,21 @@ pub struct Monitors {
     pub summary_stream: bool,
     /// raw container listing vs stream listing (C11)
     pub stream_listing: bool,
+    /// compare stream names modulo the container's name comparison (C11)
+    pub stream_class_compare: bool,
 }
 
 pub struct Config {
     pub property: &'static str,
+    /// start from these bytes (opened) instead of `Package::create`
+    pub seed: Option<Vec<u8>>,
     pub ptype: u8,
     pub setup: Vec<Op>,
     pub alphabet: Vec<Op>,
     /// calls applied at every state but never expanded (invalid-call menu)
     pub probes: Vec<Op>,
+    /// stream names probed (has_stream / read_stream) in every state (C11)
+    pub stream_names: Vec<String>,
     pub max_depth: usize,
     pub wall_cap: Duration,
     pub monitors: Monitors,
@@ -91,6 +97,23 @@ pub fn fresh(ptype: u8) -> Fresh {
     Fresh { snapshot: snapshot(h.p()).expect("snapshot of fresh package") }
 }
 
+pub fn fresh_for(cfg: &Config) -> Fresh {
+    match &cfg.seed {
+        None => fresh(cfg.ptype),
+        Some(b) => {
+            let mut h = Harness::open(b.clone()).expect("seed opens");
+            Fresh { snapshot: snapshot(h.p()).expect("snapshot of seed") }
+        }
+    }
+}
+
+fn start(cfg: &Config, fr: &Fresh) -> Result<(Harness, Model), String> {
+    match &cfg.seed {
+        None => Ok((Harness::create(cfg.ptype)?, Model::new(cfg.ptype, &fr.snapshot))),
+        Some(b) => Ok((Harness::open(b.clone())?, Model::from_snapshot(&fr.snapshot))),
+    }
+}
+
 fn session_bits(ops: &[&Op]) -> u8 {
     let mut bits = 0u8;
     for op in ops {
@@ -116,8 +139,16 @@ fn vio(cfg: &Config, monitor: &str, op: Option<&Op>, class: &str, detail: String
     Violation {
         signature: sig,
         detail: format!("{} | history: {}", detail, hist.iter().map(|o| o.show()).collect::<Vec<_>>().join(" ; ")),
-        replay: json!({"kind":"e1-history","property":cfg.property,"ptype":cfg.ptype,"setup":cfg.setup,"ops":ops}),
+        replay: json!({"kind":"e1-history","property":cfg.property,"ptype":cfg.ptype,"setup":cfg.setup,"ops":ops,"seed_hex":cfg.seed.as_ref().map(|b| hex(b))}),
     }
+}
+
+pub fn hex(b: &[u8]) -> String {
+    b.iter().map(|x| format!("{:02x}", x)).collect()
+}
+
+pub fn unhex(s: &str) -> Vec<u8> {
+    (0..s.len() / 2).map(|i| u8::from_str_radix(&s[2 * i..2 * i + 2], 16).unwrap_or(0)).collect()
 }
 
 /// Key of a closed state + what the save looks like.
@@ -130,8 +161,7 @@ fn content_key(snap: &Snapshot, bytes: &[u8], bits: u8) -> Result<Key, String> {
 /// the replay itself misbehaves (then a violation was already reported on an
 /// earlier level and the state should not have been expanded).
 fn replay(cfg: &Config, fr: &Fresh, hist: &[&Op]) -> Result<(Harness, Model), String> {
-    let mut h = Harness::create(cfg.ptype)?;
-    let mut m = Model::new(cfg.ptype, &fr.snapshot);
+    let (mut h, mut m) = start(cfg, fr)?;
     for op in cfg.setup.iter().chain(hist.iter().cloned()) {
         let o = h.apply(op);
         if let Outcome::Panic(p) = &o {
@@ -215,8 +245,17 @@ fn exec(cfg: &Config, fr: &Fresh, hist_idx: &[u16], op: Option<&Op>) -> TransRes
     if outcome.is_ok() {
         if cfg.monitors.model {
             // the format has one stored value for "" and null (C01): identify them
-            let want = m.expected_snapshot().normalized();
-            if let Some(d) = want.diff(&post.normalized()) {
+            let mut want = m.expected_snapshot().normalized();
+            let mut got = post.normalized();
+            if cfg.monitors.stream_class_compare {
+                for sn in [&mut want, &mut got] {
+                    for st in sn.streams.iter_mut() {
+                        st.0 = crate::ops::name_class(&st.0);
+                    }
+                    sn.streams.sort();
+                }
+            }
+            if let Some(d) = want.diff(&got) {
                 res.violations.push(vio(cfg, "model", op, &diff_class(&d), format!("after {} the package differs from the relational model (model vs package): {}", op.map(|o| o.show()).unwrap_or_default(), d), &full));
                 return res;
             }
@@ -327,8 +366,8 @@ pub fn close_checks(cfg: &Config, mode: &str, pre: &Snapshot, bytes: &[u8], m: &
             Ok(mut h2) => match snapshot(h2.p()) {
                 Err(p) => out.push(vio(cfg, "no-panic", last, "snapshot-panic", p, full)),
                 Ok(s2) => {
-                    let (want, s2) = representable_only(&pre.normalized(), &s2);
-                    if let Some(d) = want.diff(&s2) {
+                    let (want, s2b) = representable_only(&pre.normalized(), &s2);
+                    if let Some(d) = want.diff(&s2b) {
                         out.push(vio(cfg, "roundtrip", last, &format!("{}:{}", mode, diff_class(&d)), format!("closed by {}, reopened: before close vs after reopen: {}", mode, d), full));
                     } else {
                         // save again without change, reopen again
@@ -741,6 +780,50 @@ fn state_checks(cfg: &Config, fr: &Fresh, hist_idx: &[u16]) -> (u64, u64, Vec<Vi
             }
         }
     }
+    if !cfg.stream_names.is_empty() {
+        match replay(cfg, fr, &hist) {
+            Err(e) => out.push(vio(cfg, "machinery", None, "replay-diverged", e, &hist)),
+            Ok((mut h, m)) => {
+                for name in &cfg.stream_names {
+                    probes += 1;
+                    let cls = crate::ops::name_class(name);
+                    let want: Option<&Vec<u8>> = m.streams.iter().find(|(k, _)| crate::ops::name_class(k) == cls).map(|(_, v)| v);
+                    let got = crate::report::catch(|| {
+                        let has = h.p().has_stream(name);
+                        let content = match h.p().read_stream(name) {
+                            Ok(mut r) => {
+                                let mut b = Vec::new();
+                                std::io::Read::read_to_end(&mut r, &mut b).map(|_| b).map_err(|e| e.to_string())
+                            }
+                            Err(e) => Err(e.to_string()),
+                        };
+                        (has, content)
+                    });
+                    let unspecified = crate::ops::stream_name_class(name) == Tri::Unspecified;
+                    match got {
+                        Err(p) => out.push(vio(cfg, "no-panic", hist.last().cloned(), &format!("stream-probe:{}", crate::report::panic_site(&p)), format!("has_stream/read_stream({:?}) panicked: {}", name, p), &hist)),
+                        Ok((has, content)) => match want {
+                            Some(bytes) => {
+                                if !has || content.as_ref().ok() != Some(bytes) {
+                                    out.push(vio(cfg, "stream-content", hist.last().cloned(), "live-stream-not-readable", format!("stream {:?} was written ({} bytes) but has_stream={} read={:?}", name, bytes.len(), has, content.map(|b| b.len())), &hist));
+                                }
+                            }
+                            None => {
+                                if (has || content.is_ok()) && !unspecified {
+                                    out.push(vio(cfg, "stream-content", hist.last().cloned(), "phantom-stream", format!("stream {:?} was never written (or was removed) but has_stream={} read={:?}", name, has, content.map(|b| b.len())), &hist));
+                                } else if unspecified && content.is_ok() {
+                                    // an odd name the library accepts must not
+                                    // give access to another stream's bytes
+                                    let b = content.unwrap();
+                                    out.push(vio(cfg, "stream-content", hist.last().cloned(), "alias-through-odd-name", format!("stream name {:?} was never written but reads {} bytes (aliases another stream or internal data)", name, b.len()), &hist));
+                                }
+                            }
+                        },
+                    }
+                }
+            }
+        }
+    }
     // probes: calls that must fail and change nothing
     for p in &cfg.probes {
         probes += 1;
@@ -839,7 +922,7 @@ pub struct Stats {
 }
 
 pub fn explore(cfg: &Config, rep: &mut Report) -> Stats {
-    let fr = fresh(cfg.ptype);
+    let fr = fresh_for(cfg);
     let start = Instant::now();
     let stop = AtomicBool::new(false);
     let mut st = Stats {
@@ -1105,9 +1188,18 @@ pub fn replay_history(doc: &serde_json::Value) {
     let ptype = doc["ptype"].as_u64().unwrap_or(0) as u8;
     let setup: Vec<Op> = serde_json::from_value(doc["setup"].clone()).unwrap_or_default();
     let ops: Vec<Op> = serde_json::from_value(doc["ops"].clone()).expect("ops");
-    let fr = fresh(ptype);
-    let mut h = Harness::create(ptype).expect("create");
-    let mut m = Model::new(ptype, &fr.snapshot);
+    let seed = doc["seed_hex"].as_str().map(unhex);
+    let (mut h, mut m) = match &seed {
+        None => {
+            let fr = fresh(ptype);
+            (Harness::create(ptype).expect("create"), Model::new(ptype, &fr.snapshot))
+        }
+        Some(b) => {
+            let mut h0 = Harness::open(b.clone()).expect("seed opens");
+            let snap = snapshot(h0.p()).expect("snapshot");
+            (Harness::open(b.clone()).expect("seed opens"), Model::from_snapshot(&snap))
+        }
+    };
     for op in setup.iter().chain(ops.iter()) {
         let o = h.apply(op);
         let e = m.apply(op, o.is_ok());
